@@ -1,7 +1,7 @@
 //! Shared machinery of the translator properties (C01-C04, C12, C13, C18): compile each program
 //! under the requested optimisation configurations, validate the artefacts, run both back ends,
 //! and write one record per program (schema: DESIGN.md A.3).
-use crate::compile::{compile, OptBits, Outcome};
+use crate::compile::{compile_build, Build, Outcome};
 use crate::exec::{ts_run, wasm_interp, End, Run};
 use crate::util::{arg, arg_or, silence_panics};
 use serde_json::{json, Value};
@@ -18,7 +18,7 @@ pub fn main(args: &[String]) {
   silence_panics();
   let input = std::fs::read_to_string(arg(args, "--in").expect("--in")).unwrap();
   let out = arg(args, "--out").expect("--out");
-  let builds: Vec<u8> = arg_or(args, "--builds", "0,31").split(',').map(|b| b.trim().parse().unwrap()).collect();
+  let builds: Vec<Build> = arg_or(args, "--builds", "0,31").split(',').map(Build::parse).collect();
   let backends = arg_or(args, "--backends", "wasm,ts");
   let fuel: u64 = arg_or(args, "--fuel", "50000000").parse().unwrap();
   let ts_timeout: u64 = arg_or(args, "--ts-timeout-ms", "5000").parse().unwrap();
@@ -38,8 +38,8 @@ pub fn main(args: &[String]) {
     let mut build_map = serde_json::Map::new();
     let idx = records.len();
     for b in &builds {
-      let name = format!("opt:{b}");
-      match compile(&sources, &entry, OptBits(*b), with_std) {
+      let name = b.name();
+      match compile_build(&sources, &entry, b, with_std) {
         Outcome::Rejected { rendered, errors } => {
           rec["front"] = json!("rejected");
           rec["errors"] = json!(errors);
